@@ -834,8 +834,13 @@ def p_field(rng, f, which=None):
         g["cons"][-1][2]["pd"]["data"]["arr"]["dt"] = "f8"
         return g, "cons_add:" + cls
     if which == "span_swap":
+        # the two axes must be told apart by their own, different, dimension coordinates: otherwise
+        # exchanging them is a mere renaming of the axes and the fields ARE equal
+        def dimc0(a):
+            return [lib.canon(c) for _, ax, c in g["cons"] if ax == [a] and c["cls"] == "dim"]
         cand = [t for t in g["cons"] if len(t[1]) == 2 and size[t[1][0]] == size[t[1][1]] and size[t[1][0]] > 1
-                and not symmetric_under_swap(t[2]["pd"]["data"], 0, 1)]
+                and not symmetric_under_swap(t[2]["pd"]["data"], 0, 1)
+                and dimc0(t[1][0]) and dimc0(t[1][1]) and dimc0(t[1][0]) != dimc0(t[1][1])]
         if not cand:
             return None
         t = rng.choice(cand)
@@ -896,6 +901,9 @@ def p_field(rng, f, which=None):
             sp = spanned_axes(g)
             keys = {k for k, _ in g["axes"]}
             if (new in keys and new not in sp) or (cm["axes"][0] in keys and cm["axes"][0] not in sp):
+                return None
+            # ... and, when both are domain axes, told apart by the 1-d constructs they carry
+            if new in keys and cm["axes"][0] in keys and group_sig(g, [new]) == group_sig(g, [cm["axes"][0]]):
                 return None
             cm["axes"] = [new]
         elif which == "cm_order":
@@ -994,7 +1002,8 @@ def fine_arrays(obj, out=None):
         for k, v in obj.items():
             if k in ("props", "cparams", "dparams"):
                 for name, pv in v:
-                    if name not in FILL_NAMES and pv is not None:
+                    # not Conventions either: a field's equals always ignores it
+                    if name not in FILL_NAMES and name != "Conventions" and pv is not None:
                         fine_arrays(pv, out)
             elif k not in ("opts",):
                 fine_arrays(v, out)
@@ -1136,7 +1145,13 @@ def ip_directed_cases(rng, n):
 
 # ---- bounds that set a property they inherit from the parent coordinate ------------------------------
 def _inh_values(rng, p, parent_props):
-    """(value the parent has / would have, contradicting value, same value in another dtype or None)"""
+    """(value the parent has / would have, contradicting value, same value in another dtype or None)
+
+    HEAD decides redundancy with the DEFAULT tolerances (`self._equals(b[p], p[p])` without rtol/atol)
+    and data types compared, but a property that is not redundant is then compared by
+    Properties.equals with the tolerances OF THE CALL.  A numeric contradiction is therefore made
+    larger (+1000) than any tolerance the generators use (atol <= 2, rtol <= 1/2), as for every
+    other numeric property perturbation (p_props)."""
     if p == "standard_name":
         cur = _pget(parent_props, "standard_name")
         q = cur["s"] if cur is not None and "s" in cur else "latitude"
@@ -1150,10 +1165,10 @@ def _inh_values(rng, p, parent_props):
     if p in ("leap_month", "leap_year"):
         v = rng.choice([2, 4])
         mk = lambda val, dt: {"shape": [], "dt": dt, "vals": [val], "ma": False, "py": True}
-        return mk(v, "i8"), mk(v + 1, "i8"), mk(v, "f8")
+        return mk(v, "i8"), mk(v + 1000, "i8"), mk(v, "f8")
     v = [rng.randint(28, 31) for _ in range(3)]
     mk = lambda vals, dt: {"shape": [3], "dt": dt, "vals": list(vals), "ma": False}
-    return mk(v, "i8"), mk([v[0] + 1] + v[1:], "i8"), mk(v, "i4")
+    return mk(v, "i8"), mk([v[0] + 1000] + v[1:], "i8"), mk(v, "i4")
 
 
 def _put(props, name, val):
